@@ -35,6 +35,7 @@ from cxx_ast import *
 import scaling_lib as sl
 import wakeupdate2coq as wu
 
+UNITS = ("Meter", "ElectronVolt", "Hertz", "Seconds")
 FIELDS = ["_linear", "_angle", "_revolutionpart", "_V_RF", "_f_RF", "_V0", "_syncphase", "_bl2phase"]
 WRAP = ("ImplicitCastExpr", "ParenExpr", "CXXFunctionalCastExpr", "CStyleCastExpr", "CXXStaticCastExpr", "ExprWithCleanups",
         "MaterializeTemporaryExpr", "CXXBindTemporaryExpr", "ConstantExpr")
@@ -218,9 +219,9 @@ class RFExec(sl.SymExec):
         if len(args) != 1 or len(lits) != 1:
             raise sl.Unknown("Ruler::scale() is not called with one string literal")
         unit = lits[0].get("value", "").strip('"')
-        if not re.fullmatch(r"[A-Za-z]+", unit):
-            raise sl.Unknown("unit name %r" % unit)
-        return ("leaf", '(ax_scale A%d "%s"%%string)' % (ax, unit), ty)
+        if unit not in UNITS:
+            raise sl.Unknown("Ruler::scale() is asked for the unit %r; Model/RFDriftKit.v (runit) knows %s" % (unit, UNITS))
+        return ("leaf", "(ax_scale A%d U_%s)" % (ax, unit), ty)
 
     def vec_of(self, n):
         n = peel(n)
@@ -782,7 +783,7 @@ def translate():
          "   A0, A1: the axes in->getAxis(0), in->getAxis(1) of the source grid (SourceMap: _axis[k] = in->getAxis(%s));" %
          "|".join("%d" % p for p in geo["axis_perm"]),
          "   M: the data members of RFKickMap; ftan, fsin, fasin: std::tan, std::sin, std::asin; c, two_pi: physcons::c, two_pi<double>(). *)",
-         "From Coq Require Import List ZArith String Bool.",
+         "From Coq Require Import List ZArith Bool.",
          "From Inovesa Require Import Base.FieldKit Model.RF Model.RFDriftKit.",
          "Import ListNotations.",
          "Local Open Scope Z_scope.",
